@@ -38,7 +38,7 @@ DECIDES = {
     "C08": ["ClosedOnce", "NothingAfter", "Verdict", "VerdictKnown", "Freed", "CloseCompletes"],
     "C09": ["AllDelivered", "KeyEstablished", "OnceEach", "InOrderOnce", "CloseCompletes"],
     "C14": ["NoInternal", "DocVerdict"],
-    "C18": ["OnceEach", "Causal", "VersionsFirst", "LateGets"],
+    "C18": ["OnceEach", "Causal", "VersionsFirst", "LateGets", "InOrderOnce"],
     "C19": ["OnlyOneCode", "NoInternal"],
 }
 
@@ -84,7 +84,10 @@ def cfgs_for(prop, tier):   # noqa: F811  (replaces the draft above)
     inj = Raw('{[side |-> "X", phase |-> "pake", body |-> Pake("4-w/app", "X")], '
               '[side |-> "X", phase |-> "pake", body |-> PakeBad], '
               '[side |-> "X", phase |-> "version", body |-> Enc("Kx", "X", "version", "ver:X")], '
-              '[side |-> "X", phase |-> "0", body |-> Junk("j")]}')
+              '[side |-> "X", phase |-> "0", body |-> Junk("j")], '
+              # a third participant may put anything at all under `pake` (before 5a1e124: an internal failure)
+              '[side |-> "X", phase |-> "pake", body |-> Junk("p")], '
+              '[side |-> "X", phase |-> "pake", body |-> Body("pakeinv", "-", "X", "-", "-")]}')
     if prop == "C03":
         out["swap"] = mk(MaxSend=F(2, 0), MaxSwap=1)
         out["srv_close_send"] = mk(MaxSend=F(2, 0), MaxDrops=F(1, 0), SrvCloses=True)
@@ -678,6 +681,62 @@ def c18_outstanding_case(tid, n, kinds, peer):
     return run, False, drained
 
 
+def third_party_case(tid, point, kind):
+    """A third participant (a side that is neither wormhole's) adds one message to the mailbox of an otherwise honest
+    exchange - at the start, after the keys are known, after the versions, at the end.  kind: its own valid PAKE message, a
+    copy of B's PAKE body, a junk PAKE body, a junk `version` or `0`.  The server relays it like any other message."""
+    from spake2 import SPAKE2_Symmetric
+    from wormhole.util import dict_to_bytes as d2b
+    run = RealRun(tid, "third-party")
+    w = run.world
+    for c in ("A", "B"):
+        run.apply({"a": "ConnOpen", "c": c})
+    for c in ("A", "B"):
+        run.apply({"a": "AppSetCode", "c": c, "code": "4-alpha-beta"})
+        run.apply({"a": "AppSend", "c": c, "data": ("m:%s:0" % c).encode().hex()})
+    xside = "f0f0f0f0f0"
+
+    def inject():
+        app = w.server.app(w.clients["A"].appid)
+        mbs = list(app["mailboxes"])
+        if not mbs:
+            return False
+        if kind == "pake-valid":
+            body = d2b({"pake_v1": SPAKE2_Symmetric(b"4-other-words", idSymmetric=b"appid").start().hex()}).hex()
+        elif kind == "pake-copy":
+            theirs = [m for m in app["mailboxes"][mbs[0]]["messages"] if m["phase"] == "pake" and m["side"] == w.clients["B"].side]
+            if not theirs:
+                return False
+            body = theirs[0]["body"]
+        elif kind == "pake-junk":
+            body = b"not json at all".hex()
+        elif kind in ("pake-nonutf8", "pake-list", "pake-nonhex", "pake-nonstr", "pake-notelem", "pake-short", "pake-empty"):
+            body = {"pake-nonutf8": b"\xff\xfe{}", "pake-list": b"[1, 2]", "pake-nonhex": b'{"pake_v1": "zz"}', "pake-nonstr": b'{"pake_v1": 5}',
+                    "pake-notelem": d2b({"pake_v1": (b"S" + b"\xff" * 32).hex()}), "pake-short": b'{"pake_v1": "00"}', "pake-empty": b""}[kind].hex()
+        else:
+            body = bytes(range(40)).hex()
+        phase = "pake" if kind.startswith("pake") else kind
+        run.apply({"a": "Inject", "mailbox": mbs[0], "side": xside, "phase": phase, "body": body, "appid": w.clients["A"].appid})
+        return True
+
+    def seen(ev):
+        return all(any(k == ev for k, _ in c.events) for c in w.clients.values())
+    done = False
+    for _ in range(400):
+        if not done and (point == "start" and w.server.app(w.clients["A"].appid)["mailboxes"]
+                         or point == "after-key" and seen("key") or point == "after-versions" and seen("versions")):
+            done = inject()
+            continue
+        acts = w.enabled(faults=False)
+        if not acts:
+            break
+        run.apply(acts[0])
+    if not done:
+        done = inject()
+    drained = run.drain()
+    return run, False, drained, done
+
+
 def c18_chase_case(tid, how, when):
     """A Deferred-mode application that has get_code() outstanding and issues get_unverified_key() / get_verifier() /
     get_versions() right after the call (or the delivery) that produces the values - before the eventual queue has run.
@@ -715,6 +774,55 @@ def c18_chase_case(tid, how, when):
         run.apply({"a": "AppGet", "c": "A", "kind": "welcome", "chase": 1})
     drained = run.drain()
     return run, False, drained
+
+
+def c02_cross_session_case(tid, phases):
+    """History before the session: an earlier session of the same two applications in this process (same side labels - a
+    long-running program, or sides a server has seen before).  In the new session the server substitutes the bodies of the
+    peer's frames of `phases` by the bodies the peer's frames had in the *earlier* session (a replay across sessions: genuine
+    ciphertext, made with another session key).  The client must ignore it or close with an error."""
+    old = RealRun(900001 + tid, "c02-cross-session-earlier")      # (another payload profile than the new session's)
+    w0 = old.world
+    for c in ("A", "B"):
+        old.apply({"a": "ConnOpen", "c": c})
+        old.apply({"a": "AppSetCode", "c": c, "code": "4-alpha-beta"})
+        for k in range(2):
+            old.apply({"a": "AppSend", "c": c, "data": ("m:%s:%d" % (c, k)).encode().hex()})
+    old.drain()
+    bside = w0.clients["B"].side
+    earlier = {}
+    for app in w0.server.apps.values():
+        for mbx in list(app["mailboxes"].values()):
+            for msg in mbx["messages"]:
+                if msg["side"] == bside:
+                    earlier[msg["phase"]] = msg["body"]
+    old.finish(True)
+    run = RealRun(tid, "c02-cross-session")
+    w = run.world
+    if w.clients["B"].side != bside:
+        return run, False, False, False          # (sides are pinned per client name: cannot happen)
+    for c in ("A", "B"):
+        run.apply({"a": "ConnOpen", "c": c})
+        run.apply({"a": "AppSetCode", "c": c, "code": "4-alpha-beta"})
+        for k in range(2):
+            run.apply({"a": "AppSend", "c": c, "data": ("m:%s:%d" % (c, k)).encode().hex()})
+    done = 0
+    for _ in range(400):
+        acts = w.enabled(faults=False)
+        if not acts:
+            break
+        a = acts[0]
+        if a["a"] == "Deliver":
+            conn = w.conn(a["k"])
+            fr = conn.s2c[0]
+            if conn.client.name == "A" and fr["type"] == "message" and fr.get("side") == bside and fr.get("phase") in phases \
+                    and fr["phase"] in earlier and fr["body"] != earlier[fr["phase"]]:
+                run.apply({"a": "TamperS2C", "k": conn.id, "i": 0, "op": "body", "v": earlier[fr["phase"]]})
+                done += 1
+                continue
+        run.apply(a)
+    drained = run.drain()
+    return run, False, drained, done > 0
 
 
 def c02_reconnect_replay_case(tid, victim, keep, order):
@@ -1250,6 +1358,23 @@ def run_pipeline(prop, tier, v, quick):
                 cexs.append((name, r.violated, r.trace))
             elif not r.ok:
                 raise RuntimeError("TLC failed on %s: %s" % (mname, (r.error or r.stdout[-2000:])))
+        if prop == "C02":
+            # first of all real runs, so that nothing else has been through this process' wormhole classes yet: state kept at
+            # class or module level by an earlier session is exactly what this family is about
+            ncs = ncs_ok = 0
+            for phases in (("version",), ("0",), ("1",), ("version", "0", "1"), ("pake",), ("pake", "version", "0", "1")):
+                tid += 1
+                ncs += 1
+                try:
+                    run_, goal, drained, ok = c02_cross_session_case(tid, phases)
+                except Exception as e:
+                    cov.setdefault("family_errors", []).append("cross-session %s: %r" % (phases, e))
+                    continue
+                ncs_ok += bool(ok)
+                runs[run_.tid] = run_
+                records.append(run_.finish(drained, goal=False))
+            cov["c02_cross_session_cases"] = ncs
+            cov["c02_cross_session_substituted"] = ncs_ok
         # ---- 2. spec -> code: counterexamples first, then sampled behaviours
         for (name, inv, trace) in cexs:
             tid += 1
@@ -1367,18 +1492,23 @@ def run_pipeline(prop, tier, v, quick):
                             records.append(run_.finish(drained, goal=False))
             cov["c02_prepake_cases"] = npre
             cov["c02_prepake_reordered"] = nok
-        if prop in ("C03", "C09"):
+        if prop in ("C03", "C09", "C18"):
             import itertools
             fam = []
-            for n_ in (2, 3, 4):
+            for n_ in ((2, 3, 4) if prop != "C18" else (3,)):
                 for perm in itertools.permutations(range(n_ + 1)):
                     fam.append((n_, perm))
+            # more than ten messages: two-digit phases, the late ones overtaking the early ones
+            ident = list(range(13))
+            fam_long = [(12, tuple(ident)), (12, tuple([0, 11] + ident[1:11] + [12])), (12, tuple([0, 12, 11] + ident[1:11])),
+                        (12, tuple([0] + ident[:0:-1])), (12, tuple([11, 0, 12] + ident[1:11]))]
             frng = random.Random(seed * 31 + 3)
-            if quick:
+            if quick and len(fam) > 60:
                 fam = fam[:30] + frng.sample(fam[30:], 30)
+            fam = fam + (fam_long if prop != "C18" else [])
             nperm = 0
             for (n_, perm) in fam:
-                for reconnect in (None, frng.randrange(0, n_ + 1), "lazy"):
+                for reconnect in ((None, frng.randrange(0, n_ + 1), "lazy") if prop != "C18" else (None,)):
                     tid += 1
                     try:
                         run_, goal, drained, ok = c03_case(tid, n_, list(perm), None if reconnect == "lazy" else reconnect, frng,
@@ -1391,6 +1521,23 @@ def run_pipeline(prop, tier, v, quick):
                     records.append(run_.finish(drained, goal=goal))
             cov["c03_family_cases"] = 3 * len(fam)
             cov["c03_family_permuted"] = nperm
+        if prop in ("C14", "C02"):
+            n = nok = 0
+            for point in ("start", "after-key", "after-versions", "end"):
+                for kind in ("pake-valid", "pake-copy", "pake-junk", "version", "0") + (
+                        ("pake-nonutf8", "pake-list", "pake-nonhex", "pake-nonstr", "pake-notelem", "pake-short", "pake-empty") if point == "start" else ()):
+                    tid += 1
+                    n += 1
+                    try:
+                        run_, goal, drained, ok = third_party_case(tid, point, kind)
+                    except Exception as e:
+                        cov.setdefault("family_errors", []).append("third party %s %s: %r" % (point, kind, e))
+                        continue
+                    nok += bool(ok)
+                    runs[tid] = run_
+                    records.append(run_.finish(drained, goal=False))
+            cov["third_party_cases"] = n
+            cov["third_party_injected"] = nok
         if prop in ("C03", "C09", "C14", "C18"):
             n = nok = 0
             for who in ("A", "B"):
